@@ -4,10 +4,10 @@ use crate::shims::scursor::ReadCursor;
 use crate::be16;
 
 //@item rodbus/src/types.rs | UnitId | structeq
-//@item rodbus/src/types.rs | AddressRange
+//@item rodbus/src/types.rs | AddressRange | structeq
 //@item rodbus/src/types.rs | ReadBitsRange
 //@item rodbus/src/types.rs | ReadRegistersRange
-//@item rodbus/src/types.rs | Indexed
+//@item rodbus/src/types.rs | Indexed | enumeq
 //@item rodbus/src/types.rs | BitIterator
 //@item rodbus/src/types.rs | AddressIterator
 //@item rodbus/src/types.rs | RegisterIterator
@@ -126,11 +126,12 @@ impl<'a> RegisterIterator<'a> {
     pub open spec fn spec_values(&self) -> Seq<u16> { Seq::new(self.range.count as nat, |k: int| be16(self.bytes@, 2 * k) as u16) }
 
 // exact-length parse: the body must be exactly 2*count bytes [C01,C04]
-//@fn rodbus/src/types.rs | RegisterIterator<'a>::parse_all | tags=C01,C02,C04,C07
+//@fn rodbus/src/types.rs | RegisterIterator<'a>::parse_all | tags=C01,C02,C04,C07 | r10
 //@|    requires old(cursor).wf(),
 //@|    ensures final(cursor).wf(),
 //@|        r is Ok <==> old(cursor).rest().len() == 2 * range.count as int,
 //@|        r is Ok ==> r->Ok_0.range == range && r->Ok_0.pos == 0 && r->Ok_0.bytes@ == old(cursor).rest() && (range.wf() ==> r->Ok_0.wf()),
+//@|        r is Err ==> r->Err_0 is BadResponse,
 
 // (slice pattern `Some([high, low])` is outside the Verus subset: the body is decided by Kani, harness k_register_iterator_next
 //  [complete for every payload of 1..=125 registers and every position]; only the contract is used by Verus callers)
@@ -148,11 +149,12 @@ impl<'a> BitIterator<'a> {
     pub open spec fn spec_values(&self) -> Seq<bool> { Seq::new(self.range.count as nat, |k: int| spec_bit(self.bytes@, k)) }
 
 // exact-length parse: the body must be exactly ceil(count/8) bytes [C01,C04]
-//@fn rodbus/src/types.rs | BitIterator<'a>::parse_all | tags=C01,C02,C04,C07
+//@fn rodbus/src/types.rs | BitIterator<'a>::parse_all | tags=C01,C02,C04,C07 | r10
 //@|    requires old(cursor).wf(),
 //@|    ensures final(cursor).wf(),
 //@|        r is Ok <==> old(cursor).rest().len() == (range.count as int + 7) / 8,
 //@|        r is Ok ==> r->Ok_0.range == range && r->Ok_0.pos == 0 && r->Ok_0.bytes@ == old(cursor).rest() && (range.wf() ==> r->Ok_0.wf()),
+//@|        r is Err ==> r->Err_0 is BadResponse,
 
     // established by parse_all: a valid range, exactly ceil(count/8) bytes
     pub open spec fn wf(&self) -> bool {
